@@ -100,6 +100,7 @@ type Reporter struct {
 	known    []Finding
 	Viol     int
 	KnownHit map[string]bool
+	reported map[string]bool
 	start    time.Time
 }
 
@@ -130,6 +131,13 @@ func (r *Reporter) Report(rep Report) {
 			return
 		}
 	}
+	if r.reported == nil {
+		r.reported = map[string]bool{}
+	}
+	if r.reported[key] {
+		return
+	}
+	r.reported[key] = true
 	r.Viol++
 	h := sha256.Sum256([]byte(key))
 	name := fmt.Sprintf("%s-%s.json", r.Property, hex.EncodeToString(h[:])[:10])
